@@ -256,7 +256,10 @@ def build_harness(release=False):
 
 def build_binary():
     """the real rws binary from /repo's working tree, hooks off, for the loopback campaigns"""
-    env = dict(ENV, CARGO_TARGET_DIR=os.path.join(B, "cargo-target-bin"))
+    # one target directory per source tree: two trees hold the same package name, and a fresh build of one does not replace the final
+    # binary that the other left behind (seen when seeded changes were tried on a copy of /repo while /repo itself was checked)
+    tdir = "cargo-target-bin" if REPO == "/repo" else "cargo-target-bin-" + hashlib.sha256(REPO.encode()).hexdigest()[:8]
+    env = dict(ENV, CARGO_TARGET_DIR=os.path.join(B, tdir))
     rc, out = sh(["cargo", "build", "--offline", "--quiet", "--manifest-path", REPO + "/Cargo.toml"], env=env, timeout=1200)
     if rc != 0:
         raise Infra("rws binary build failed:\n" + out[-1500:])
